@@ -25,7 +25,7 @@ CHECKS = {
              "(some component can always make a useful move while the session has not ended) and TERMINATION (an explicit measure decreases with every useful step; a maximal run has ended). "
              "For load ALSO WITH arbitrary worker crashes (CrashProgress.v, CrashTermination.v): no stand-off for any restart budget, re-queueing, differing collections; termination for every finite budget. "
              "Without failures ALL modes: no stand-off and termination (Progress*.v, Termination*.v; worksteal incl. a bound of 8*tests+1 on the withdrawal requests ever issued). WITH arbitrary crashes: no stand-off for load, worksteal, "
-             "the scope family (any collections, any budget) and each (when collections agree; otherwise the recorded finding); termination with crashes (finite budget) for load, the scope family and each. Partial: a termination measure with failures for worksteal.", design="5/C02", technique=TECH),
+             "the scope family (any collections, any budget) and each (when collections agree; otherwise the recorded finding); termination with crashes (finite budget) for all modes.", design="5/C02", technique=TECH),
  "C03": dict(text=SYS + "Proved (all states/events): one death notice yields at most one crash report, no other event yields one; the crash item is the head of the dead node's book / first "
              "undone test, the rest returns to the pool once, finished units are not re-queued. SYSTEM level for --dist load with arbitrary crashes (CrashTheorems.v, CrashTokens.v): every crash report names the test the dead worker was executing or "
              "about to start; without a re-queueing plugin no test is ever started twice; pool ++ all workers' holdings ++ crashed tests is a permutation of the collection; the same for the scope family (CrashScopeTheorems.v) and worksteal "
@@ -58,7 +58,7 @@ CHECKS = {
  "C14": dict(text="Theorems for every importability/constructor oracle: location kept, string text kept, instance arrives as same class or generic warning carrying class name and text, category kept when "
              "rebuildable; refutation for the bare function (hence the fallback, fix 9a94612). Tied to the real serialize/unserialize functions and the real process_from_remote on generated warning kinds.",
              design="5/C14", technique=TECH),
- "C15": dict(text=SYS + "Proved (all states): mark_test_pending puts the index at the FRONT of the pool and adds exactly one index; monitors check hook-before-publication and dispatch-first on the implementation.",
+ "C15": dict(text=SYS + "Proved (all states): mark_test_pending puts the index at the FRONT of the pool and adds exactly one index; SYSTEM level (RequeueCount.v, load, arbitrary crashes, any number of re-queues): every test is started at most 1 + (times re-queued) times, with the exact account at a finished end; (SystemCorollariesRequeue.v, load and worksteal) the re-queued index is at the front of the pool or handed out first in the same step; monitors check hook-before-publication and dispatch-first on the implementation.",
              design="5/C15", technique=TECH),
  "C16": dict(text=SYS + CTL + "Proved for EVERY event sequence: at most one shutdown command per worker, never a second; every scheduler operation except the initial schedule sends no work to a flagged node "
              "(the initial schedule under 'no node flagged yet'); steal requests name only booked tests; indices stay valid.", design="5/C16", technique=TECH),
